@@ -150,7 +150,7 @@ theorem exec_newId_ss (ss : SState) : (ss.exec .newId).1.store = ss.store ∧ (s
 
 /-- What a successful code redemption tells about the state before it, and what it leaves behind
     (fault-free runs; any transaction mode). -/
-structure RedeemOk (cfg : Config) (now : Time) (q : RedeemReq) (ss ss' : SState) (sc : List String) : Prop where
+structure RedeemOk (cfg : Config) (now : Time) (q : RedeemReq) (ss ss' : SState) (rt : Option Nat) (sc : List String) : Prop where
   ex : ∃ sig rec client,
     q.code.sig = some sig ∧ alookup ss.store.codes sig = some rec ∧ rec.active = true ∧ q.code.exact = true ∧
     client ∈ ss.clients ∧ client.id = q.clientId ∧ (client.isPublic || q.credOk) = true ∧
@@ -159,6 +159,7 @@ structure RedeemOk (cfg : Config) (now : Time) (q : RedeemReq) (ss ss' : SState)
     expiredAt rec.req.sess.expCode now cfg.codeLife now = false ∧
     pkceAccept cfg (alookup ss.store.pkce sig) q.verifier client.isPublic ∧
     sc = appendAllUniq [] rec.req.grantedScopes ∧
+    rt.isSome = canIssueRefresh cfg rec.req ∧
     alookup ss'.store.codes sig = some { rec with active := false }
 
 theorem exec_invalidateCode_ok (ss : SState) (k : Option Nat) (h : (ss.exec (.invalidateCode k)).2.errKind = none) :
@@ -179,7 +180,7 @@ theorem exec_createRefresh_codes (ss : SState) (a) (r : Req) : (ss.exec (.create
 
 theorem redeem_wp (rc : RunCfg) (hnf : NoFaults rc) (cfg : Config) (now : Time) (q : RedeemReq) (rs : RState) :
     wpOk rc (redeemH cfg now q)
-      (fun rs' o => ∀ a r i e sc, o = .tokens a r i e sc → RedeemOk cfg now q rs.ss rs'.ss sc) rs := by
+      (fun rs' o => ∀ a r i e sc, o = .tokens a r i e sc → RedeemOk cfg now q rs.ss rs'.ss r sc) rs := by
   unfold redeemH
   simp only [wpOk_bind, wpOk_callH, wpOk_expectReq, wpOk_expectNat, wpOk_expectOk, wpOk_guard, wpOk_pure,
     authenticate, wpOk_expectClient, wpOk_ite, wpOk_ok]
@@ -236,25 +237,26 @@ theorem redeem_wp (rc : RunCfg) (hnf : NoFaults rc) (cfg : Config) (now : Time) 
       by_cases h1 : rec.req.formGet "redirect_uri" = q.redirect
       · exact h1
       · simp [h0, h1] at hredir
-  have hfinal : ∀ (rsE : RState) (scv : List String), scv = (redeemStoreReq cfg now q client rec.req rec.req).grantedScopes →
-      alookup rsE.ss.store.codes sig = some { rec with active := false } → RedeemOk cfg now q rs.ss rsE.ss scv := by
-    intro rsE scv hsc hd
-    refine ⟨sig, rec, client, hsig, hrec, hact, hexact, hclm, hclid, hcred, hgr, by simpa using hcid, hredir', by simpa using hexp, hpk, ?_, hd⟩
+  have hfinal : ∀ (rsE : RState) (rtv : Option Nat) (scv : List String), scv = (redeemStoreReq cfg now q client rec.req rec.req).grantedScopes →
+      rtv.isSome = canIssueRefresh cfg rec.req →
+      alookup rsE.ss.store.codes sig = some { rec with active := false } → RedeemOk cfg now q rs.ss rsE.ss rtv scv := by
+    intro rsE rtv scv hsc hrtv hd
+    refine ⟨sig, rec, client, hsig, hrec, hact, hexact, hclm, hclid, hcred, hgr, by simpa using hcid, hredir', by simpa using hexp, hpk, ?_, hrtv, hd⟩
     rw [hsc]; rfl
   constructor
-  · intro _ rt hrt hcommit
+  · intro hcan rt hrt hcommit
     have h9 := step_eq_exec rc _ (.createRefresh atk _) rfl _ hrt (by intro e; simp)
     apply wpOk_oidcExplicitPopulate rc q.code client _ _ hnf
     intro rsE b hsameE a r i e sc ho
     cases ho
-    apply hfinal rsE _ rfl
+    apply hfinal rsE _ _ rfl (by simp [hcan])
     rw [hsameE.2.2.1, step_commit_ss, h9.1, exec_createRefresh_codes]
     exact hdead8
-  · intro _ hcommit
+  · intro hcan hcommit
     apply wpOk_oidcExplicitPopulate rc q.code client _ _ hnf
     intro rsE b hsameE a r i e sc ho
     cases ho
-    apply hfinal rsE _ rfl
+    apply hfinal rsE _ _ rfl (by simp [hcan])
     rw [hsameE.2.2.1, step_commit_ss]
     exact hdead8
 
@@ -262,7 +264,7 @@ theorem redeem_wp (rc : RunCfg) (hnf : NoFaults rc) (cfg : Config) (now : Time) 
 theorem redeem_success (rc : RunCfg) (hnf : NoFaults rc) (cfg : Config) (now : Time) (q : RedeemReq) (rs : RState)
     (a : Nat) (r : Option Nat) (i : Bool) (e : Int) (sc : List String)
     (h : (run rc rs (redeemProg cfg now q)).2 = .tokens a r i e sc) :
-    RedeemOk cfg now q rs.ss (run rc rs (redeemProg cfg now q)).1.ss sc :=
+    RedeemOk cfg now q rs.ss (run rc rs (redeemProg cfg now q)).1.ss r sc :=
   run_HP_ok rc (redeemH cfg now q) rs _ _ (redeem_wp rc hnf cfg now q rs) h (by intro e; simp) a r i e sc rfl
 
 end Fosite.Model
